@@ -233,7 +233,9 @@ func (p *Program) verifyFunc(key string, safetyOnly bool) *FuncResult {
 	// postconditions at each return
 	for ri, rp := range fr.rets {
 		e.curBlock = rp.block
-		renv := &SpecEnv{e: e, st: rp.st, vars: map[string]Val{}, old: env.old}
+		// lenient: a conclusion that names a local not yet in scope at this return (an early error
+		// return) requires the clause's premises to be false there
+		renv := &SpecEnv{e: e, st: rp.st, vars: map[string]Val{}, old: env.old, lenient: true}
 		rienv := &SpecEnv{e: e, st: rp.st, vars: map[string]Val{}, old: ienv.old}
 		// postconditions may mention locals that are in scope at the return (ghost-free specs over
 		// intermediate values such as the split input lines)
